@@ -74,10 +74,11 @@ package plugins
 //@   inv not_committed_before: !l.wroteHeader ==> !l.ResponseWriter.committed || l.ResponseWriter.hijacked
 //@   inv status_fidelity: l.wroteHeader && !l.limitReached && !l.ResponseWriter.hijacked ==> l.ResponseWriter.status == l.statusCode && l.statusCode != 0
 //@   inv limit_means_committed: l.limitReached ==> l.wroteHeader
+//@   inv recorded_status_is_final: l.statusCode == 0 || !informational(l.statusCode)
 
 //@ func (*limitedResponseWriter).ensureHeaderWritten
 //@   props C14
-//@   requires lrw.ResponseWriter != nil
+//@   requires lrw.ResponseWriter != nil && (lrw.statusCode == 0 || !informational(lrw.statusCode))
 //@   ensures sent: lrw.wroteHeader
 //@   ensures first_commit: !old(lrw.wroteHeader) ==> lrw.statusCode == (old(lrw.statusCode) == 0 ? 200 : old(lrw.statusCode))
 //@             && (!old(lrw.ResponseWriter.committed) ==> lrw.ResponseWriter.committed && lrw.ResponseWriter.status == lrw.statusCode)
@@ -105,12 +106,17 @@ package plugins
 //@   ensures refused_when_excess: old(lrw.limitReached) || old(lrw.written) + len(b) > lrw.limit ==> result0 == 0 && result1 != nil && lrw.ResponseWriter.bodyLen == old(lrw.ResponseWriter.bodyLen)
 //@   modifies lrw.written, lrw.limitReached, lrw.wroteHeader, lrw.statusCode, http.ResponseWriter.committed, http.ResponseWriter.status, http.ResponseWriter.ceAtCommit, http.ResponseWriter.clAtCommit, http.ResponseWriter.bodyLen
 
+// status fidelity as net/http defines it: an informational status is forwarded at once and decides nothing, the
+// first final status wins, calls after the commit are ignored
 //@ func (*limitedResponseWriter).WriteHeader
 //@   props C14
 //@   requires inv(lrw)
 //@   ensures inv: inv(lrw)
-//@   ensures records: !old(lrw.wroteHeader) ==> lrw.statusCode == statusCode
-//@   modifies lrw.statusCode
+//@   ensures first_final_status_wins: !old(lrw.wroteHeader) && !informational(statusCode) ==> lrw.statusCode == (old(lrw.statusCode) != 0 ? old(lrw.statusCode) : statusCode)
+//@   ensures informational_decides_nothing: informational(statusCode) ==> lrw.statusCode == old(lrw.statusCode) && lrw.wroteHeader == old(lrw.wroteHeader)
+//@             && lrw.ResponseWriter.committed == old(lrw.ResponseWriter.committed)
+//@   ensures ignored_after_commit: old(lrw.wroteHeader) ==> lrw.statusCode == old(lrw.statusCode)
+//@   modifies lrw.statusCode, http.ResponseWriter.committed, http.ResponseWriter.status, http.ResponseWriter.ceAtCommit, http.ResponseWriter.clAtCommit
 
 //@ func (*limitedResponseWriter).Flush
 //@   props C14
@@ -165,20 +171,23 @@ package plugins
 //@   inv streaming_has_sent: g.bufferExceeded ==> g.headerSent
 //@   inv status_fidelity: g.headerSent && !g.ResponseWriter.hijacked ==> g.ResponseWriter.status == g.statusCode
 //@   inv buffered: g.buf.n >= 0 && g.buf.n <= MaxCompressionBufferSize
+//@   inv recorded_status_is_final: g.wroteHeader ==> !informational(g.statusCode)
 
 //@ func (*gzipResponseWriter).WriteHeader
 //@   props C15
 //@   requires inv(g)
 //@   ensures inv: inv(g)
-//@   ensures records_first_status: !old(g.wroteHeader) ==> g.statusCode == code && g.wroteHeader
+//@   ensures records_first_final_status: !old(g.wroteHeader) && !informational(code) ==> g.statusCode == code && g.wroteHeader
+//@   ensures informational_decides_nothing: informational(code) ==> g.statusCode == old(g.statusCode) && g.wroteHeader == old(g.wroteHeader)
 //@   ensures later_calls_ignored: old(g.wroteHeader) ==> g.statusCode == old(g.statusCode)
-//@   ensures nothing_sent_yet: g.ResponseWriter.committed == old(g.ResponseWriter.committed)
-//@   modifies g.statusCode, g.wroteHeader
+//@   ensures nothing_committed_yet: g.ResponseWriter.committed == old(g.ResponseWriter.committed)
+//@   modifies g.statusCode, g.wroteHeader, http.ResponseWriter.committed, http.ResponseWriter.status, http.ResponseWriter.ceAtCommit, http.ResponseWriter.clAtCommit
 
 //@ func (*gzipResponseWriter).sendHeader
 //@   props C15
 //@   requires g.ResponseWriter != nil && (g.headerSent ==> g.wroteHeader && g.ResponseWriter.committed) && (!g.headerSent ==> !g.ResponseWriter.committed || g.ResponseWriter.hijacked)
 //@   requires g.headerSent && !g.ResponseWriter.hijacked ==> g.ResponseWriter.status == g.statusCode
+//@   requires g.wroteHeader ==> !informational(g.statusCode)
 //@   ensures sent: g.headerSent && g.wroteHeader && g.ResponseWriter.committed
 //@   ensures status: !g.ResponseWriter.hijacked ==> g.ResponseWriter.status == g.statusCode
 //@   ensures asked_or_200: g.statusCode == (old(g.wroteHeader) ? old(g.statusCode) : 200)
